@@ -1293,6 +1293,7 @@ int32_t jls_core_repair_fsr(struct jls_core_s * self, uint16_t signal_id) {
     jls_core_fsr_summary_level_alloc(signal_info->track_fsr, level);
     struct jls_core_fsr_level_s * lvl = signal_info->track_fsr->level[level];
     bool skip_summary = false;
+    int64_t covered_end = -1;  // sample id after the last one that a stored level 1 summary covers
 
     while (level > 0) {
         JLS_LOGI("repair_fsr signal_id %d, level %d, offset %" PRIi64, (int) signal_id, (int) level, offset);
@@ -1345,7 +1346,18 @@ int32_t jls_core_repair_fsr(struct jls_core_s * self, uint16_t signal_id) {
             skip_summary = true;
             --level;
             if (r->header.entry_count > 0) {
-                offset = r->offsets[r->header.entry_count - 1];
+                uint32_t k = r->header.entry_count;
+                offset = r->offsets[k - 1];
+                if (0 == level) {
+                    // an omitted block has offset 0: continue from the last block that was stored, and
+                    // expect the next block where the samples this pair already summarizes end
+                    while ((0 == offset) && (k > 1)) {
+                        --k;
+                        offset = r->offsets[k - 1];
+                    }
+                    covered_end = lvl->summary->header.timestamp + ((int64_t) lvl->summary->header.entry_count)
+                        * signal_info->signal_def.sample_decimate_factor;
+                }
                 lvl->index->header.entry_count = 0;
                 lvl->summary->header.entry_count = 0;
                 if (0 != jls_raw_chunk_seek(self->raw, offset)) {
@@ -1388,6 +1400,9 @@ int32_t jls_core_repair_fsr(struct jls_core_s * self, uint16_t signal_id) {
         }
         have_sample_id = true;
         sample_id_expect = chunk_sample_id + signal_info->signal_def.samples_per_data;
+        if (skip_summary && (covered_end > sample_id_expect)) {
+            sample_id_expect = covered_end;  // omitted blocks follow, which level 1 holds already
+        }
         memcpy(signal_info->track_fsr->data, self->buf->start, self->buf->length);
         JLS_LOGI("repair_fsr signal_id %d, level %d, offset %" PRIi64 " sample_id %" PRIi64 " to %" PRIi64 " data[0]=%f",
                  (int) signal_id, (int) level, offset,
